@@ -5,9 +5,30 @@ import GqlVerif.Proofs.C06Sound
 /-!
 # C05 — the request body `build_query` produces; C04 — the key set of a serialized `Variables`
 
-Part 1 (`C05Body`): `buildQuery` mirrors the `impl GraphQLQuery` block `generated_module.rs` emits.
-Part 2 (`C04Keys`): `Codegen.variablesItems` connected to the whole-struct serialization theorems of
-`Proofs/C01Layers.lean` (L5).
+Part 1 (namespace `C05Body`): `buildQuery` mirrors the `impl GraphQLQuery` block `generated_module.rs` emits.
+* `body_members`, `body_keys` — the serialized body is the object `variables`, `query`, `operationName` (this order)
+  holding the variables, `M.query`, `M.operationName`;
+* `generate_inv`, `resolve_opNames` (from `C06Sound`), `body_of_generate` — for `M ∈ ms`, `generate … = .ok ms`:
+  `M.query = text`, `M.operationName` is the `i`-th entry of `Valid.opNames doc` (as written), the items are
+  `responseForQuery` of the **first** operation with the same *normalized* name (`root ≤ i`), and `root = i` under
+  `NoEarlierClash`;
+* `items_of_named_operation` — hence the items come from the named operation itself under `Normalization::None`
+  or when normalization is injective on the document's operation names; `named_operation_is_written` ties that
+  table entry to the written definition; `request_body_of_generate` — end to end;
+* `clash_witness` — the side condition is needed (finding: `getA` / `GetA` under `Normalization::Rust`).
+
+Part 2 (namespace `C04Keys`): `Codegen.variablesItems` connected to the whole-struct serialization theorems of
+`Proofs/C01Layers.lean` (L5) and to the top-level `Serde.ser` (with its `serde_json::Map` collapse).
+* `variablesItems_inv` — unit struct, or one member (`varField`) per declared variable, in order;
+* `variables_keys` — no side condition: keys pairwise distinct, as a set = the names of the written variables,
+  as a list = those names **iff** they are pairwise distinct;
+* `variables_keys_exact` (names distinct ⇒ key list = declared names minus omitted ones),
+  `variables_keys_all_iff` (skip-none off: key list = declared names ⇔ names distinct),
+  `variables_keys_any_value`, `variables_unit`;
+* `variables_keys_of_assignment` — values given per variable; this (and only this) needs the *Rust* member
+  identifiers (`keyword_replace ∘ to_snake_case`) pairwise distinct;
+* `find_variables_in_module` — discharges `e.find "Variables" = items.head?` inside a generated module;
+* `hypotheses_satisfiable`, `distinct_names_needed`, `distinct_members_needed` — concrete runs.
 -/
 namespace GqlVerif
 namespace C05Body
@@ -272,6 +293,534 @@ theorem clash_witness :
          !sameItems (responseForQuery { s, q, o, cs := clashCs } 1) m1.items
        | _, _ => false
      | .error _ => false) = true := by decide +kernel
+
+end C05Body
+
+/-! ## Part 2 — the key set of a serialized `Variables` value -/
+
+namespace C04Keys
+open Codegen Serde
+
+/-- the Rust identifier of the member emitted for a variable: snake case, then keyword escaping -/
+def memberName (c : Ctx) (v : RVariable) : String := keywordReplace (c.cs.snake v.name)
+
+/-- the variable's declared type is nullable at top level (`Int`, `[Int!]`; not `Int!`) -/
+def nullable (v : RVariable) : Bool := v.ty.quals.head? != some .required
+
+/-- the member `variablesItems` emits for variable `v` once its Rust type `t` is known -/
+def varField (c : Ctx) (v : RVariable) (t : RTy) : RField :=
+  { rust := memberName c v, rename := fieldRename v.name (memberName c v), ty := t,
+    skipNone := c.o.skipNone && nullable v }
+
+/-- variable `v` and member `f` belong together -/
+def IsMember (c : Ctx) (v : RVariable) (f : RField) : Prop := ∃ t, variableType c v = .ok t ∧ f = varField c v t
+
+theorem mapM_all2 {ε α β} (f : α → Except ε β) :
+    ∀ (xs : List α) (ys : List β), xs.mapM f = .ok ys → C01.All2 (fun x y => f x = .ok y) xs ys
+  | [], ys, h => by cases h; exact .nil
+  | x :: xs, ys, h => by
+    rw [List.mapM_cons] at h
+    cases hx : f x with
+    | error e => simp [hx, bind, Except.bind] at h
+    | ok y =>
+      cases hm : xs.mapM f with
+      | error e => simp [hx, hm, bind, Except.bind] at h
+      | ok ys' =>
+        simp [hx, hm, bind, Except.bind, pure, Except.pure] at h
+        subst h
+        exact .cons hx (mapM_all2 f xs ys' hm)
+
+/-- **what `variablesItems` emits**: `struct Variables;` for an operation without variables, otherwise
+    `struct Variables { … }` with one member per declared variable, in declaration order (followed by the
+    `impl Variables` block with the default-value functions) -/
+theorem variablesItems_inv (c : Ctx) (op : Nat) (items : List Item) (h : variablesItems c op = .ok items) :
+    (c.q.opVariables op = [] ∧ items = [.unitStruct "Variables" (allVariableDerives c.o) c.serdeCrate]) ∨
+    (c.q.opVariables op ≠ [] ∧ ∃ fs dfl,
+      items = [.struct "Variables" (allVariableDerives c.o) c.serdeCrate fs, .defaults dfl] ∧
+      C01.All2 (IsMember c) (c.q.opVariables op) fs) := by
+  by_cases hv : c.q.opVariables op = []
+  · left
+    rw [C04.unit_variables_null c op hv] at h
+    cases h
+    exact ⟨hv, rfl⟩
+  · right
+    refine ⟨hv, ?_⟩
+    unfold variablesItems at h
+    have hemp : (c.q.opVariables op).isEmpty = false := by
+      cases hvs : c.q.opVariables op with
+      | nil => exact absurd hvs hv
+      | cons a b => rfl
+    simp only [hemp, Bool.false_eq_true, ↓reduceIte, bind, Except.bind] at h
+    split at h
+    · simp at h
+    · rename_i fs hfs
+      split at h
+      · simp at h
+      · rename_i dfl _
+        simp only [pure, Except.pure, Except.ok.injEq] at h
+        refine ⟨fs, dfl, h.symm, ?_⟩
+        refine C01.All2.imp ?_ (mapM_all2 _ _ _ hfs)
+        intro v f hvf
+        cases hvt : variableType c v with
+        | error e => simp [hvt] at hvf
+        | ok t =>
+          simp only [hvt, pure, Except.pure, Except.ok.injEq] at hvf
+          exact ⟨t, hvt, hvf.symm⟩
+
+/-! ### members ↔ variables -/
+
+/-- the member of variable `v` is left out of the object: `skip_serializing_none` is on, the declared type is
+    nullable and the member holds `None` -/
+def omitted (c : Ctx) (vals : List (String × Val)) (v : RVariable) : Bool :=
+  c.o.skipNone && nullable v && (C01.valOf vals (memberName c v)).isUnit
+
+theorem members_plain (c : Ctx) : ∀ {vars : List RVariable} {fs : List RField},
+    C01.All2 (IsMember c) vars fs → C01.plain fs = true
+  | _, _, .nil => rfl
+  | _, _, .cons ⟨t, _, hf⟩ rest => by
+    subst hf
+    simp only [C01.plain, List.all_cons, Bool.and_eq_true] at *
+    exact ⟨rfl, members_plain c rest⟩
+
+theorem members_wire (c : Ctx) : ∀ {vars : List RVariable} {fs : List RField},
+    C01.All2 (IsMember c) vars fs → fs.map (·.wire) = vars.map (·.name)
+  | _, _, .nil => rfl
+  | _, _, .cons ⟨t, _, hf⟩ rest => by
+    subst hf
+    simp only [List.map_cons, members_wire c rest]
+    congr 1
+    exact C11.input_wire_is_graphql_name _ _ _ _
+
+theorem members_rust (c : Ctx) : ∀ {vars : List RVariable} {fs : List RField},
+    C01.All2 (IsMember c) vars fs → fs.map (·.rust) = vars.map (memberName c)
+  | _, _, .nil => rfl
+  | _, _, .cons ⟨t, _, hf⟩ rest => by
+    subst hf
+    simp only [List.map_cons, members_rust c rest]
+    rfl
+
+/-- the wire names of the members that are written = the names of the variables that are not omitted -/
+theorem members_written (c : Ctx) (vals : List (String × Val)) : ∀ {vars : List RVariable} {fs : List RField},
+    C01.All2 (IsMember c) vars fs →
+      (fs.filter (fun f => !C01.skipped vals f)).map (·.wire) = (vars.filter (fun v => !omitted c vals v)).map (·.name)
+  | _, _, .nil => rfl
+  | v :: _, _, .cons ⟨t, _, hf⟩ rest => by
+    subst hf
+    have hs : C01.skipped vals (varField c v t) = omitted c vals v := rfl
+    have hw : (varField c v t).wire = v.name := C11.input_wire_is_graphql_name _ _ _ _
+    simp only [List.filter_cons, hs]
+    cases omitted c vals v
+    · simp only [Bool.not_false, ↓reduceIte, List.map_cons, hw, members_written c vals rest]
+    · simp only [Bool.not_true, Bool.false_eq_true, ↓reduceIte, members_written c vals rest]
+
+/-! ### `serde_json::Map` collapsing (`Json.normObj`) on key lists -/
+
+abbrev keys (kvs : List (String × Json)) : List String := kvs.map (·.1)
+
+theorem keys_insert (k : String) (v : Json) :
+    ∀ acc : List (String × Json), keys (Json.insert k v acc) = if k ∈ keys acc then keys acc else keys acc ++ [k]
+  | [] => by simp [Json.insert, keys]
+  | (k', v') :: acc => by
+    by_cases hk : k' = k
+    · subst hk; simp [Json.insert, keys]
+    · have hne : (k' == k) = false := by simpa using hk
+      have hne' : ¬ k = k' := fun h => hk h.symm
+      simp only [Json.insert, hne, Bool.false_eq_true, ↓reduceIte, keys, List.map_cons, List.mem_cons, hne', false_or]
+      have ih := keys_insert k v acc
+      simp only [keys] at ih
+      rw [ih]
+      split <;> simp
+
+theorem foldl_insert_keys : ∀ (kvs acc : List (String × Json)), (keys acc).Nodup →
+    (keys (kvs.foldl (fun acc (kv : String × Json) => Json.insert kv.1 kv.2 acc) acc)).Nodup ∧
+    ∀ k, k ∈ keys (kvs.foldl (fun acc (kv : String × Json) => Json.insert kv.1 kv.2 acc) acc) ↔ k ∈ keys acc ∨ k ∈ keys kvs
+  | [], acc, h => by simp [h]
+  | (k, v) :: kvs, acc, h => by
+    have hstep : (keys (Json.insert k v acc)).Nodup ∧ ∀ x, x ∈ keys (Json.insert k v acc) ↔ x ∈ keys acc ∨ x = k := by
+      rw [keys_insert]
+      split
+      · rename_i hm
+        refine ⟨h, fun x => ⟨Or.inl, ?_⟩⟩
+        rintro (hx | rfl)
+        · exact hx
+        · exact hm
+      · rename_i hm
+        refine ⟨?_, fun x => by simp⟩
+        rw [List.nodup_append]
+        refine ⟨h, by simp, ?_⟩
+        intro a ha b hb
+        simp only [List.mem_singleton] at hb
+        subst hb
+        intro hab
+        exact hm (hab ▸ ha)
+    obtain ⟨ih1, ih2⟩ := foldl_insert_keys kvs (Json.insert k v acc) hstep.1
+    refine ⟨ih1, fun x => ?_⟩
+    rw [List.foldl_cons, ih2 x, hstep.2 x]
+    simp only [keys, List.map_cons, List.mem_cons]
+    constructor
+    · rintro ((h | h) | h)
+      · exact Or.inl h
+      · exact Or.inr (Or.inl h)
+      · exact Or.inr (Or.inr h)
+    · rintro (h | h | h)
+      · exact Or.inl (Or.inl h)
+      · exact Or.inl (Or.inr h)
+      · exact Or.inr h
+
+/-- a `serde_json::Map` never holds a key twice … -/
+theorem normObj_keys_nodup (kvs : List (String × Json)) : (keys (Json.normObj kvs)).Nodup :=
+  (foldl_insert_keys kvs [] List.nodup_nil).1
+
+/-- … and holds exactly the keys that were inserted -/
+theorem mem_normObj_keys (kvs : List (String × Json)) (k : String) : k ∈ keys (Json.normObj kvs) ↔ k ∈ keys kvs := by
+  have := (foldl_insert_keys kvs [] List.nodup_nil).2 k
+  simpa [Json.normObj] using this
+
+theorem keys_normKvs : ∀ kvs : List (String × Json), keys (normKvs kvs) = keys kvs
+  | [] => rfl
+  | (k, v) :: rest => by simp only [normKvs, keys, List.map_cons]; rw [← keys, ← keys, keys_normKvs rest]
+
+/-- the key list survives the collapse unchanged **iff** it has no repetition -/
+theorem normObj_keys_eq_iff (kvs : List (String × Json)) : keys (Json.normObj kvs) = keys kvs ↔ (keys kvs).Nodup := by
+  constructor
+  · intro h; rw [← h]; exact normObj_keys_nodup kvs
+  · intro h; rw [C01.normObj_of_nodup kvs h]
+
+/-! ### `Serde.ser` at a struct type -/
+
+theorem ser_fuel (e : Env) (v : Val) : ∃ k, (valSize v + 2) * (e.items.length + e.externs.length + 2) = k + 1 := by
+  have : 0 < (valSize v + 2) * (e.items.length + e.externs.length + 2) := Nat.mul_pos (by omega) (by omega)
+  exact ⟨(valSize v + 2) * (e.items.length + e.externs.length + 2) - 1, by omega⟩
+
+/-- top-level serialization of a record at a struct type: the entries `serFieldsWith` writes, then the
+    `serde_json::Map` collapse -/
+theorem ser_record_struct (e : Env) (p n : String) (d : List String) (sc : Option String) (fs : List RField)
+    (vals : List (String × Val)) (j : Json) (he : e.find p = some (.struct n d sc fs))
+    (h : Serde.ser e (.path p) (.record vals) = .ok j) :
+    ∃ k out, serFieldsWith (serPath e k) fs vals = .ok out ∧ j = .obj (Json.normObj (normKvs out)) := by
+  unfold Serde.ser at h
+  rw [C01.map_ok] at h
+  obtain ⟨j0, hj0, rfl⟩ := h
+  obtain ⟨k, hk⟩ := ser_fuel e (.record vals)
+  rw [hk] at hj0
+  have hpath : serTy e (k + 1) (.path p) (.record vals) = serPath e (k + 1) p (.record vals) := rfl
+  rw [hpath, C01.serPath_struct e k p n d sc fs he, C01.map_ok] at hj0
+  obtain ⟨out, hout, rfl⟩ := hj0
+  exact ⟨k, out, hout, by simp [normJson]⟩
+
+/-- a value that serializes at a struct type is a record — or a bare leaf value (`serPrim` writes those
+    whatever the named type is; such a value is not a value of the struct) -/
+theorem ser_struct_value (e : Env) (p n : String) (d : List String) (sc : Option String) (fs : List RField)
+    (v : Val) (j : Json) (he : e.find p = some (.struct n d sc fs)) (hprim : serPrim v = none)
+    (h : Serde.ser e (.path p) v = .ok j) : ∃ vals, v = .record vals := by
+  unfold Serde.ser at h
+  rw [C01.map_ok] at h
+  obtain ⟨j0, hj0, rfl⟩ := h
+  obtain ⟨k, hk⟩ := ser_fuel e v
+  rw [hk] at hj0
+  have hpath : serTy e (k + 1) (.path p) v = serPath e (k + 1) p v := rfl
+  rw [hpath] at hj0
+  unfold serPath at hj0
+  simp only [hprim, he] at hj0
+  cases v with
+  | record vals => exact ⟨vals, rfl⟩
+  | _ => simp [unmodelled] at hj0
+
+/-! ### the theorems -/
+
+/-- names of the variables whose member is written, in declaration order -/
+def writtenNames (c : Ctx) (op : Nat) (vals : List (String × Val)) : List String :=
+  ((c.q.opVariables op).filter (fun v => !omitted c vals v)).map (·.name)
+
+/-- the struct item behind `items.head?` in the non-empty case -/
+theorem variables_struct (c : Ctx) (op : Nat) (items : List Item) (h : variablesItems c op = .ok items)
+    (hne : c.q.opVariables op ≠ []) :
+    ∃ fs, items.head? = some (.struct "Variables" (allVariableDerives c.o) c.serdeCrate fs) ∧
+      C01.All2 (IsMember c) (c.q.opVariables op) fs := by
+  rcases variablesItems_inv c op items h with ⟨hnil, _⟩ | ⟨_, fs, dfl, rfl, hall⟩
+  · exact absurd hnil hne
+  · exact ⟨fs, rfl, hall⟩
+
+/-- **C04, whole struct — general form (no side condition).**  A `Variables` record serialized with
+    `Serde.ser` (= `serde_json::to_value`) is a JSON object whose keys are pairwise distinct and are, as a set,
+    exactly the declared names of the variables whose member is written; the key *list* is that list of names,
+    in declaration order, **iff** those names are pairwise distinct. -/
+theorem variables_keys (c : Ctx) (op : Nat) (items : List Item) (e : Env) (vals : List (String × Val)) (j : Json)
+    (h : variablesItems c op = .ok items) (hne : c.q.opVariables op ≠ [])
+    (he : e.find "Variables" = items.head?)
+    (hs : Serde.ser e (.path "Variables") (.record vals) = .ok j) :
+    ∃ kvs, j = .obj kvs ∧ (keys kvs).Nodup ∧ (∀ k, k ∈ keys kvs ↔ k ∈ writtenNames c op vals) ∧
+      (keys kvs = writtenNames c op vals ↔ (writtenNames c op vals).Nodup) := by
+  obtain ⟨fs, hhead, hall⟩ := variables_struct c op items h hne
+  rw [hhead] at he
+  obtain ⟨k, out, hout, rfl⟩ := ser_record_struct e _ _ _ _ fs vals j he hs
+  have hkeys : keys (normKvs out) = writtenNames c op vals := by
+    rw [keys_normKvs]
+    have := C01.ser_keys_exact _ fs vals out (members_plain c hall) hout
+    rw [members_written c vals hall] at this
+    exact this
+  refine ⟨_, rfl, normObj_keys_nodup _, ?_, ?_⟩
+  · intro x; rw [mem_normObj_keys, hkeys]
+  · rw [← hkeys]; exact normObj_keys_eq_iff _
+
+/-- **`variables_keys_exact`.**  If the declared variable names of the operation are pairwise distinct, the keys
+    of a serialized `Variables` value are exactly — as a list, in declaration order — the declared names,
+    minus (with `skip_serializing_none`) the nullable ones whose member is `None`. -/
+theorem variables_keys_exact (c : Ctx) (op : Nat) (items : List Item) (e : Env) (vals : List (String × Val)) (j : Json)
+    (h : variablesItems c op = .ok items) (hne : c.q.opVariables op ≠ [])
+    (he : e.find "Variables" = items.head?)
+    (hnd : ((c.q.opVariables op).map (·.name)).Nodup)
+    (hs : Serde.ser e (.path "Variables") (.record vals) = .ok j) :
+    ∃ kvs, j = .obj kvs ∧
+      keys kvs = ((c.q.opVariables op).filter (fun v =>
+        !(c.o.skipNone && nullable v && (C01.valOf vals (memberName c v)).isUnit))).map (·.name) := by
+  obtain ⟨kvs, hj, _, _, hiff⟩ := variables_keys c op items e vals j h hne he hs
+  exact ⟨kvs, hj, hiff.mpr (List.Nodup.sublist (List.Sublist.map _ List.filter_sublist) hnd)⟩
+
+theorem writtenNames_all (c : Ctx) (op : Nat) (vals : List (String × Val))
+    (hall : ∀ v ∈ c.q.opVariables op, omitted c vals v = false) :
+    writtenNames c op vals = (c.q.opVariables op).map (·.name) := by
+  unfold writtenNames
+  congr 1
+  rw [List.filter_eq_self]
+  intro v hv; simp [hall v hv]
+
+/-- without `skip_serializing_none`: exactly the declared names, and the distinctness hypothesis is **necessary
+    and sufficient** -/
+theorem variables_keys_all_iff (c : Ctx) (op : Nat) (items : List Item) (e : Env) (vals : List (String × Val)) (j : Json)
+    (h : variablesItems c op = .ok items) (hne : c.q.opVariables op ≠ [])
+    (he : e.find "Variables" = items.head?) (hskip : c.o.skipNone = false)
+    (hs : Serde.ser e (.path "Variables") (.record vals) = .ok j) :
+    ∃ kvs, j = .obj kvs ∧
+      (keys kvs = (c.q.opVariables op).map (·.name) ↔ ((c.q.opVariables op).map (·.name)).Nodup) := by
+  obtain ⟨kvs, hj, _, _, hiff⟩ := variables_keys c op items e vals j h hne he hs
+  rw [writtenNames_all c op vals (fun v _ => by simp [omitted, hskip])] at hiff
+  exact ⟨kvs, hj, hiff⟩
+
+/-- the same for every value that is not a bare leaf: it is a record and the statements above apply -/
+theorem variables_keys_any_value (c : Ctx) (op : Nat) (items : List Item) (e : Env) (v : Val) (j : Json)
+    (h : variablesItems c op = .ok items) (hne : c.q.opVariables op ≠ [])
+    (he : e.find "Variables" = items.head?)
+    (hnd : ((c.q.opVariables op).map (·.name)).Nodup) (hprim : serPrim v = none)
+    (hs : Serde.ser e (.path "Variables") v = .ok j) :
+    ∃ vals kvs, v = .record vals ∧ j = .obj kvs ∧ keys kvs = writtenNames c op vals := by
+  obtain ⟨fs, hhead, _⟩ := variables_struct c op items h hne
+  obtain ⟨vals, rfl⟩ := ser_struct_value e _ _ _ _ fs v j (he.trans hhead) hprim hs
+  obtain ⟨kvs, hj, hk⟩ := variables_keys_exact c op items e vals j h hne he hnd hs
+  exact ⟨vals, kvs, rfl, hj, hk⟩
+
+/-- an operation without variables: `struct Variables;` is written as `null` (no keys at all) -/
+theorem variables_unit (c : Ctx) (op : Nat) (items : List Item) (e : Env)
+    (h : variablesItems c op = .ok items) (hnil : c.q.opVariables op = [])
+    (he : e.find "Variables" = items.head?) : Serde.ser e (.path "Variables") .unit = .ok .null := by
+  rw [C04.unit_variables_null c op hnil] at h
+  cases h
+  unfold Serde.ser
+  obtain ⟨k, hk⟩ := ser_fuel e .unit
+  rw [hk]
+  have hpath : serTy e (k + 1) (.path "Variables") .unit = serPath e (k + 1) "Variables" .unit := rfl
+  rw [hpath, C04.unit_struct_is_null e k "Variables" _ _ _ he]
+  rfl
+
+/-! ### values given per variable: where the *Rust* identifiers have to be distinct
+
+A record is keyed by Rust member names.  To say "the member of the `i`-th variable holds the `i`-th value" the
+member names (`keyword_replace (to_snake_case name)`) have to be pairwise distinct — which rustc demands of a
+struct anyway.  This is the only place where snake-casing and escaping enter. -/
+
+/-- the record holding `xs[i]` in the member of the `i`-th variable -/
+def recordOf (c : Ctx) (vars : List RVariable) (xs : List Val) : List (String × Val) := (vars.map (memberName c)).zip xs
+
+theorem valOf_cons_self (n : String) (x : Val) (rest : List (String × Val)) : C01.valOf ((n, x) :: rest) n = x := by
+  simp [C01.valOf]
+
+theorem valOf_cons_ne {n m : String} (x : Val) (rest : List (String × Val)) (h : n ≠ m) :
+    C01.valOf ((n, x) :: rest) m = C01.valOf rest m := by
+  have : (n == m) = false := by simpa using h
+  simp [C01.valOf, this]
+
+theorem filter_by_assignment (g : RVariable → String) (P : RVariable → Val → Bool) :
+    ∀ (vars : List RVariable) (xs : List Val), vars.length = xs.length → (vars.map g).Nodup →
+      vars.filter (fun v => P v (C01.valOf ((vars.map g).zip xs) (g v))) =
+        ((vars.zip xs).filter (fun p => P p.1 p.2)).map (·.1)
+  | [], _, _, _ => rfl
+  | v :: vs, [], h, _ => by simp at h
+  | v :: vs, x :: xs, h, hnd => by
+    simp only [List.map_cons, List.nodup_cons] at hnd
+    have ih := filter_by_assignment g P vs xs (by simpa using h) hnd.2
+    have hcongr : vs.filter (fun w => P w (C01.valOf ((g v, x) :: (vs.map g).zip xs) (g w))) =
+        vs.filter (fun w => P w (C01.valOf ((vs.map g).zip xs) (g w))) := by
+      apply List.filter_congr
+      intro w hw
+      have hne : g v ≠ g w := fun heq => hnd.1 (heq ▸ List.mem_map_of_mem hw)
+      rw [valOf_cons_ne x _ hne]
+    simp only [List.map_cons, List.zip_cons_cons, List.filter_cons, valOf_cons_self, hcongr, ih]
+    cases P v x <;> simp
+
+/-- **keys from an assignment of values to variables**: with pairwise distinct variable names *and* pairwise
+    distinct member identifiers, the keys are the names of the variables `v` with value `x` except those with
+    `skip_serializing_none`, nullable type and `x = None` -/
+theorem variables_keys_of_assignment (c : Ctx) (op : Nat) (items : List Item) (e : Env) (xs : List Val) (j : Json)
+    (h : variablesItems c op = .ok items) (hne : c.q.opVariables op ≠ [])
+    (he : e.find "Variables" = items.head?)
+    (hlen : (c.q.opVariables op).length = xs.length)
+    (hnd : ((c.q.opVariables op).map (·.name)).Nodup)
+    (hrust : ((c.q.opVariables op).map (memberName c)).Nodup)
+    (hs : Serde.ser e (.path "Variables") (.record (recordOf c (c.q.opVariables op) xs)) = .ok j) :
+    ∃ kvs, j = .obj kvs ∧
+      keys kvs = (((c.q.opVariables op).zip xs).filter (fun p =>
+        !(c.o.skipNone && nullable p.1 && p.2.isUnit))).map (·.1.name) := by
+  obtain ⟨kvs, hj, hk⟩ := variables_keys_exact c op items e _ j h hne he hnd hs
+  refine ⟨kvs, hj, ?_⟩
+  rw [hk]
+  have := filter_by_assignment (memberName c) (fun v x => !(c.o.skipNone && nullable v && x.isUnit))
+    (c.q.opVariables op) xs hlen hrust
+  unfold recordOf
+  rw [this, List.map_map]
+  rfl
+
+/-! ### `e.find "Variables"` inside a generated module -/
+
+/-- the items of a module contain the `Variables` items as a block -/
+theorem responseForQuery_split (c : Ctx) (op : Nat) (items : List Item) (h : responseForQuery c op = .ok items) :
+    ∃ pre vars post, items = pre ++ vars ++ post ∧ variablesItems c op = .ok vars := by
+  unfold responseForQuery at h
+  obtain ⟨u, _, h⟩ := C06Sound.bind_ok h
+  obtain ⟨scalars, _, h⟩ := C06Sound.bind_ok h
+  obtain ⟨enums, _, h⟩ := C06Sound.bind_ok h
+  obtain ⟨frags, _, h⟩ := C06Sound.bind_ok h
+  obtain ⟨inputs, _, h⟩ := C06Sound.bind_ok h
+  obtain ⟨vars, hvars, h⟩ := C06Sound.bind_ok h
+  obtain ⟨o, _, h⟩ := C06Sound.bind_ok h
+  obtain ⟨resp, _, h⟩ := C06Sound.bind_ok h
+  simp only [pure, Except.pure, Except.ok.injEq] at h
+  exact ⟨builtinAliases ++ scalars ++ enums ++ inputs, vars, frags.flatten ++ resp, by simp [← h, List.append_assoc], hvars⟩
+
+theorem find_append_of_head (pre vars post : List Item) (p : String) (it : Item)
+    (hpre : ∀ x ∈ pre, x.name ≠ p) (hhead : vars.head? = some it) (hname : it.name = p) :
+    (Env.mk (pre ++ vars ++ post) []).find p = vars.head? := by
+  cases vars with
+  | nil => simp at hhead
+  | cons a rest =>
+    simp only [List.head?_cons, Option.some.injEq] at hhead
+    subst hhead
+    unfold Env.find
+    simp only [List.append_assoc, List.head?_cons]
+    rw [List.find?_append]
+    have : pre.find? (fun x => x.name == p) = none := by
+      rw [List.find?_eq_none]; intro x hx; simpa using hpre x hx
+    simp [this, hname]
+
+/-- in the environment made of a module's own items, `Variables` resolves to the item `variablesItems` emitted,
+    provided no item before it (built-in aliases, custom scalars, enums, input objects) is itself called
+    `Variables` -/
+theorem find_variables_in_module (c : Ctx) (op : Nat) (items : List Item) (h : responseForQuery c op = .ok items) :
+    ∃ pre vars post, items = pre ++ vars ++ post ∧ variablesItems c op = .ok vars ∧
+      ((∀ x ∈ pre, x.name ≠ "Variables") → (Env.mk items []).find "Variables" = vars.head?) := by
+  obtain ⟨pre, vars, post, rfl, hv⟩ := responseForQuery_split c op items h
+  refine ⟨pre, vars, post, rfl, hv, fun hpre => ?_⟩
+  rcases variablesItems_inv c op vars hv with ⟨_, rfl⟩ | ⟨_, fs, dfl, rfl, _⟩
+  · exact find_append_of_head pre _ post "Variables" _ hpre rfl rfl
+  · exact find_append_of_head pre _ post "Variables" _ hpre rfl rfl
+
+/-! ### the hypotheses: satisfiable, and not droppable
+
+All three runs go through the model's own pipeline: `Sdl.fromSdl`, `Resolve.resolve`, `variablesItems`,
+`Serde.ser` in the environment made of the emitted items. -/
+
+def demoSdl : SdlDoc := [.object "Query" [] [{ name := "x", ty := .named "String", directives := [] }]]
+
+def keysOf : Json → Option (List String)
+  | .obj kvs => some (keys kvs)
+  | _ => none
+
+/-- what the right-hand side of `variables_keys_of_assignment` predicts -/
+def predicted (c : Ctx) (op : Nat) (xs : List Val) : List String :=
+  (((c.q.opVariables op).zip xs).filter (fun p => !(c.o.skipNone && nullable p.1 && p.2.isUnit))).map (·.1.name)
+
+structure Run where
+  names : List String
+  members : List String
+  keys : Option (List String)
+  predicted : List String
+  deriving DecidableEq
+
+/-- operation 0 of `doc`, one value per declared variable -/
+def run (cs : CaseFns) (o : Options) (doc : QDoc) (xs : List Val) : Option Run :=
+  match Sdl.fromSdl demoSdl with
+  | .ok s => match Resolve.resolve s doc with
+    | .ok q =>
+      let c : Ctx := { s, q, o, cs }
+      match variablesItems c 0 with
+      | .ok items => match Serde.ser { items := items } (.path "Variables") (.record (recordOf c (q.opVariables 0) xs)) with
+        | .ok j => some { names := (q.opVariables 0).map (·.name), members := (q.opVariables 0).map (memberName c),
+                          keys := keysOf j, predicted := predicted c 0 xs }
+        | .error _ => none
+      | .error _ => none
+    | .error _ => none
+  | .error _ => none
+
+def idCs : CaseFns := { snake := id, camel := id }
+
+/-- `query Q($id: ID!, $first: Int) { x }` -/
+def okDoc : QDoc :=
+  [.op .query (some "Q") [{ name := "id", ty := .nonNull (.named "ID"), default := none },
+                          { name := "first", ty := .named "Int", default := none }] [.field none "x" []]]
+
+/-- a non-trivial instance of all hypotheses (`names` and `members` without repetition): `id = "7"`, `first = None`;
+    with `skip_serializing_none` only `id` is written, without it both are -/
+theorem hypotheses_satisfiable :
+    run idCs { skipNone := true } okDoc [.str "7", .unit] =
+      some { names := ["id", "first"], members := ["id", "first"], keys := some ["id"], predicted := ["id"] } ∧
+    run idCs { skipNone := false } okDoc [.str "7", .unit] =
+      some { names := ["id", "first"], members := ["id", "first"], keys := some ["id", "first"],
+             predicted := ["id", "first"] } := by
+  constructor <;> decide +kernel
+
+/-- `query Q($a: Int, $a: Int) { x }` — accepted by `resolve` (nothing checks variable names for uniqueness) -/
+def dupDoc : QDoc :=
+  [.op .query (some "Q") [{ name := "a", ty := .named "Int", default := none },
+                          { name := "a", ty := .named "Int", default := none }] [.field none "x" []]]
+
+/-- **`hnd` is needed**: two variables called `a`, no `skip_serializing_none`, both members `Some 1`: the declared
+    names are `[a, a]`, the object has the single key `a` (in Rust the struct does not compile: field declared
+    twice) -/
+theorem distinct_names_needed :
+    run idCs {} dupDoc [.some (.int 1), .some (.int 1)] =
+      some { names := ["a", "a"], members := ["a", "a"], keys := some ["a"], predicted := ["a", "a"] } := by
+  decide +kernel
+
+/-- `to_snake_case` on the two names of the next witness, identity elsewhere -/
+def snakeCs : CaseFns := { snake := fun s => if s == "fooBar" then "foo_bar" else s, camel := id }
+
+/-- `query Q($fooBar: Int, $foo_bar: Int) { x }`: distinct GraphQL names, the same Rust identifier -/
+def memberClashDoc : QDoc :=
+  [.op .query (some "Q") [{ name := "fooBar", ty := .named "Int", default := none },
+                          { name := "foo_bar", ty := .named "Int", default := none }] [.field none "x" []]]
+
+/-- **`hrust` is needed** (for the per-variable reading only): `fooBar = None`, `foo_bar = Some 1` with
+    `skip_serializing_none`.  Both members are called `foo_bar`, both read the first value, nothing is written;
+    the assignment predicts the key `foo_bar`.  The key-list theorem `variables_keys_exact` still holds here (its
+    right-hand side is stated through the record, not through the assignment). -/
+theorem distinct_members_needed :
+    run snakeCs { skipNone := true } memberClashDoc [.unit, .some (.int 1)] =
+      some { names := ["fooBar", "foo_bar"], members := ["foo_bar", "foo_bar"], keys := some [],
+             predicted := ["foo_bar"] } := by
+  decide +kernel
+
+end C04Keys
+
+namespace C05Body
+
+/-- the side condition of `items_of_named_operation` on concrete data: the default options do not normalize;
+    under `Normalization::Rust` the names `getA`, `getB` stay apart, the names of `clashDoc` do not -/
+example : ({} : Options).normalization = .none := rfl
+
+example : ∀ a ∈ ["getA", "getB"], ∀ b ∈ ["getA", "getB"],
+    Normalization.rust.operation clashCs a = Normalization.rust.operation clashCs b → a = b := by decide +kernel
+
+example : Valid.opNames clashDoc = ["getA", "GetA"] ∧
+    Normalization.rust.operation clashCs "getA" = Normalization.rust.operation clashCs "GetA" := by decide +kernel
 
 end C05Body
 end GqlVerif
